@@ -24,5 +24,8 @@ template<typename G> void selfmul(const S<G>* in, S<G>* out) { smooth::Map<G> o(
 // assignment between two views of ONE buffer that overlap partially (shifted by one scalar); out = the R+1 scalars of the buffer afterwards
 template<typename G> void assign_fwd(const S<G>* in, S<G>* out) { for (int i = 0; i <= G::RepSize; ++i) out[i] = in[i]; smooth::Map<G> d(out); smooth::Map<const G> s(out + 1); d = s; }
 template<typename G> void assign_bwd(const S<G>* in, S<G>* out) { for (int i = 0; i <= G::RepSize; ++i) out[i] = in[i]; smooth::Map<G> d(out + 1); smooth::Map<const G> s(out); d = s; }
+// the same with the views shifted by TWO scalars (R+2 scalars of the buffer reported)
+template<typename G> void assign_fwd2(const S<G>* in, S<G>* out) { for (int i = 0; i < G::RepSize + 2; ++i) out[i] = in[i]; smooth::Map<G> d(out); smooth::Map<const G> s(out + 2); d = s; }
+template<typename G> void assign_bwd2(const S<G>* in, S<G>* out) { for (int i = 0; i < G::RepSize + 2; ++i) out[i] = in[i]; smooth::Map<G> d(out + 2); smooth::Map<const G> s(out); d = s; }
 template<typename G, typename F> void cast_to(const S<G>* in, F* out) { smooth::Map<const G> a(in); auto c = a.template cast<F>(); for (int i = 0; i < G::RepSize; ++i) out[i] = c.coeffs()(i); }
 }  // namespace vmap
